@@ -9,6 +9,7 @@ let parse_op tok =
   | ["N"; d] -> Some (ONew (nat_of_field d))
   | ["n"; s; v] -> Some (OSetName (nat_of_field s, bstr_of_field v))
   | ["t"; s; v] -> Some (OSetText (nat_of_field s, bstr_of_field v))
+  | ["T"; s; v; n] -> Some (OSetTextSize (nat_of_field s, bstr_of_field v, z_of_int (int_of_string n)))
   | ["a"; s; k; v] -> Some (OSetAttr (nat_of_field s, bstr_of_field k, bstr_of_field v))
   | ["s"; s; v] -> Some (OSetNs (nat_of_field s, bstr_of_field v))
   | ["i"; s; v] -> Some (OSetId (nat_of_field s, bstr_of_field v))
